@@ -105,12 +105,38 @@ def _locked(fn):
     return wrapper
 
 
+# which properties rest on which T1 section (theorems quantified over its tables, or models that read them)
+_ALL = ["C%02d" % i for i in range(1, 21)]
+SECTION_PROPS = {
+    "core": [p for p in _ALL if p not in ("C08", "C10", "C11", "C12", "C16", "C18", "C19")],
+    "pep440": ["C01", "C05", "C09", "C14", "C15", "C16", "C20"],
+    "rewrite": ["C03", "C04", "C06", "C13"],
+    "v1": ["C01", "C06", "C13", "C20"],
+    "vcs": ["C10", "C12"],
+    "config": ["C03", "C18", "C19"],
+    "order_cli_update": ["C01", "C09", "C10", "C13"],
+    "order_cli__update": ["C06", "C10", "C11"],
+    "order_cli_test": ["C01"],
+    "order_vcs_commit": ["C10"],
+    "order_vcs_assert_not_dirty": ["C11"],
+    "order_cli_init": ["C19"],
+}
+
+
 @_locked
 def translate():
-    """Run T1 (tables) from /repo's working tree into coq/Gen.  Returns (ok, message)."""
+    """Run T1 from /repo's working tree into coq/Gen.  Returns (ok, message, failed) where failed maps the
+    sections that could not be extracted (their last recorded text was emitted instead) to the reason.
+    ok is False only when nothing could be produced."""
     p = subprocess.run([PY, os.path.join(VERIF, "translate", "t1_tables.py"), REPO, os.path.join(COQ, "Gen")],
                        capture_output=True, text=True)
-    return p.returncode == 0, (p.stdout + p.stderr).strip()
+    failed = {}
+    if p.returncode == 3:
+        try:
+            failed = json.load(open(os.path.join(COQ, "Gen", "t1_status.json")))["failed"]
+        except Exception as ex:
+            return False, "T1 status unreadable: %s" % ex, {}
+    return p.returncode in (0, 3), (p.stdout + p.stderr).strip(), failed
 
 
 @_locked
